@@ -28,7 +28,7 @@ ESCAPES = {
     ("copy_file", "copy_file", "NotSupported"): "optional same-filesystem fast path absent: generic stream copy does the work (R11.2)",
     ("move_file", "move_file", "NotSupported"): "optional fast path absent: generic copy+remove does the work",
     ("move_dir", "move_dir", "NotSupported"): "optional fast path absent: generic walk copy + remove_dir_all does the work",
-    ("exists", "read_path", "FileNotFound"): "the overlay's resolver reports the path as absent (hidden by a marker or in no layer): "
+    ("exists", "<resolver>", "FileNotFound"): "the overlay's resolver reports the path as absent (hidden by a marker or in no layer): "
                                              "'does not exist' is the correct answer, every other kind is returned",
 }
 
@@ -110,8 +110,10 @@ def source_is_pure(facts, inter, w, src):
     return False
 
 
-def producing_method(t):
-    """backend/VfsPath method name whose result this error came from"""
+def producing_method(t, facts=None, inter=None):
+    """backend/VfsPath method name whose result this error came from; private helpers of the adapters are named by
+    ROLE (never by their identifier): `<resolver>` = an overlay helper returning a path of any layer,
+    `<helper>` = any other private helper"""
     for x in walk(t):
         c = call_of(x) if x[0] in ("call", "await") else None
         if c:
@@ -120,11 +122,21 @@ def producing_method(t):
                 return sh.split("::")[-1]
     for x in walk(t):
         c = call_of(x) if x[0] in ("call", "await") else None
-        if c and c[2] is not None:
-            sh = short(c[0])
-            if sh.split("::")[0] in ("OverlayFS", "AsyncOverlayFS", "AltrootFS", "AsyncAltrootFS"):
-                return sh.split("::")[-1]
+        if c and c[2] is not None and inter is not None:
+            b = inter.body_of_call(("call", c[0], c[1], c[2]))
+            if b is not None and b.impl and b.impl["trait"] is None and b.vis != "pub":
+                from ..pathflow import World
+                from ..overlayrules import Overlay
+                for asyncw in (False, True):
+                    w = World(facts, asyncw)
+                    if b.impl["self_ty"] == w.overlay:
+                        ov = _OV.setdefault((id(facts), asyncw), Overlay(facts, w))
+                        return "<resolver>" if ov._is_resolver(b) else "<helper>"
+                return "<helper>"
     return None
+
+
+_OV = {}
 
 
 def run_world(facts, rep, w, floors):
@@ -144,7 +156,7 @@ def run_world(facts, rep, w, floors):
         for (s, d, variant, eterm) in rf.kind_switch_edges():
             if variant is None:
                 continue
-            meth = producing_method(eterm) if eterm else None
+            meth = producing_method(eterm, facts, inter) if eterm else None
             key = (root.name, meth, variant)
             ok = key in ESCAPES
             n_kind_escapes += 1
